@@ -186,7 +186,9 @@ def density_cases(draw, tier):
         w = draw(st.lists(st.integers(0, 9), min_size=n, max_size=n))
         if sum(w) == 0:
             w[draw(st.integers(0, n - 1))] = 1
-    return {"h": hc, "w": w, "time": time}
+    # a vertex of the simplex may be handed over as an integer ndarray (np.eye(n, dtype=int)[i])
+    int_start = mode == "vertex" and draw(st.booleans())
+    return {"h": hc, "w": w, "time": time, "int_start": int_start}
 
 
 def check_density(case, ctx):
@@ -199,7 +201,12 @@ def check_density(case, ctx):
     s0 = np.array([w / tot for w in case["w"]], dtype=float)
     ctx.label("start:vertex" if max(case["w"]) == tot else "start:interior", "time:%s" % ("0" if T == 0 else ">0"))
     Kx, _ = exact_K(hc)
-    out = random_walk_density(build_rw(hc), s0.copy(), T)
+    if case.get("int_start") and tot == 1:
+        start = np.array(case["w"], dtype=int)
+        ctx.label("start:int_dtype")
+    else:
+        start = s0.copy()
+    out = random_walk_density(build_rw(hc), start, T)
     require(isinstance(out, (list, tuple)) and len(out) == T + 1,
             lambda: "random_walk_density(time=%d) returned %d vectors, expected %d" % (T, len(out), T + 1),
             key="length")
